@@ -30,7 +30,11 @@ MsgGens == {"plain", "generic"}
 \* a second, non-handler method in the same impl block (must be left alone)
 Extras == {FALSE, TRUE}
 
-Rows == [ret : Rets, attr : Attrs, shape : Shapes, msg : MsgGens, extra : Extras]
+\* another handler (for another message type, returning Result<u32, CorpErr>) placed BEFORE the one under test in the
+\* same impl block, with this attribute: the attribute options of one handler must not leak into the next
+Prevs == {"none", "plain", "no_log", "result"}
+
+Rows == [ret : Rets, attr : Attrs, shape : Shapes, msg : MsgGens, extra : Extras, prev : Prevs]
 
 ResultSyntax(r) == r.ret \in {"result", "std_result", "path_result"}
 CanErr(r)       == r.ret \in {"result", "std_result", "path_result", "alias"}
@@ -59,9 +63,11 @@ Expect(r) ==
    extra_ok  |-> Compiles(r)]
 
 \* quick subset: every return type x attribute once, plus every shape / message form for the common case
-QuickRows == {r \in Rows : (r.shape = "struct" /\ r.msg = "plain" /\ ~r.extra)
-                            \/ (r.ret = "result" /\ r.attr = "plain")
-                            \/ (r.ret = "alias" /\ r.attr = "result" /\ r.msg = "generic")}
+QuickRows == {r \in Rows : \/ (r.shape = "struct" /\ r.msg = "plain" /\ ~r.extra /\ r.prev = "none")
+                            \/ (r.ret = "result" /\ r.attr = "plain" /\ r.prev = "none")
+                            \/ (r.ret = "alias" /\ r.attr = "result" /\ r.msg = "generic" /\ r.prev = "none")
+                            \/ (r.shape = "struct" /\ r.msg = "plain" /\ ~r.extra /\ r.prev # "none"
+                                  /\ r.ret \in {"result", "alias", "u32"} /\ r.attr \in {"plain", "result", "no_log"})}
 
 Mode == IOEnv.LAWMODE
 Rec  == IF Mode = "check" THEN ndJsonDeserialize(IOEnv.TRACE) ELSE <<>>
